@@ -2,25 +2,33 @@
 from checks.numlib import *
 
 META = {
-    "text": "Spec.run (Lean) is the definition of what the source text says; theorems: rejected_not_run, cache_transparent(_seq) for every cache size and "
-            "eviction policy; the compiler+VM are tied to Spec by an end-to-end differential on generated well- and ill-typed programs (postings, "
-            "metadata, error class, final balances) and each compiled program is executed twice to detect state left in it. compile_correct (bytecode "
-            "level) is the planned next stage.",
-    "note": "PARTIAL: the bytecode-level compile_correct theorem and the concurrency clause (shared *Program under concurrent use) are not proved; the digest "
-            "injectivity is a hypothesis of cache_transparent. Trusted: Lean kernel; Spec; harness pretty-printer instead of the ANTLR parser.",
-    "technique": "Lean 4 proof (cache refinement, rejection) + differential correspondence Spec vs compiler+VM",
+    "text": "Spec.run (Lean) is the definition of what the source text says. Bytecode level (model A2): Compile.compile reproduces the single pass of the Go "
+            "compiler (resource table, APUSH/BUMP choreography, NeededBalances, Sources) and VM.run the stack machine; ties: bytecode equality (instruction "
+            "bytes, typed resources, needed balances, sources identical to the real compiler's on every generated program, same compile_error verdict), VM "
+            "model vs real VM, regenerated opcode/type tables (opcode_table_matches, type_table_matches by decide), end-to-end Spec vs compiler+VM. Theorems: "
+            "rejected_not_run, compile_deterministic, compile_rejects (compile refuses exactly when the static rules do), compile_correct_partial, "
+            "cache_transparent(_seq) for every cache size and eviction policy.",
+    "note": "PARTIAL: compile_correct is proved for a fragment (see evidence.coverage.partial); the other constructs and the concurrency clause (shared *Program "
+            "under concurrent use) rest on the differentials; the digest injectivity is a hypothesis of cache_transparent. Trusted: Lean kernel; Spec; harness "
+            "pretty-printer instead of the ANTLR parser.",
+    "technique": "Lean 4 proof (compiler model, rejection equivalence, frame lemmas, cache refinement) + differential correspondence (bytecode equality, VM model vs VM, Spec vs compiler+VM) + regenerated tables",
     "design_ref": "5 (C08), 3.2, 3.3",
 }
 
 
 def run(ctx):
-    ctx.cov["trusted_base"] = TRUSTED + ["digest injectivity on the scripts in use is a hypothesis of cache_transparent, not an axiom"]
+    ctx.cov["trusted_base"] = TRUSTED + TRUSTED_A2 + ["digest injectivity on the scripts in use is a hypothesis of cache_transparent, not an axiom"]
     ctx.cov["partial"] = "compile_correct at bytecode level not yet proved; concurrency of a shared cached program only observed"
+    regen_opcodes(ctx)
     ctx.l1()
     r = run_numscript(ctx, 2500 if ctx.quick else 100000)
     if r is None:
         return
     inputs, impl, model = r
+    # ---- model A2: bytecode equality + VM model vs real VM, on the same inputs
+    bc = run_bytecode(ctx, inputs)
+    if bc is not None:
+        compare_bytecode(ctx, inputs, bc[0], bc[1])
     seen, nontrivial = set(), 0
     for inp in inputs:
         a, b = impl.get(inp["id"], {}), model.get(inp["id"], {})
